@@ -3,6 +3,7 @@ package main
 // E-CLI: wiring of cmd/bcl.
 
 import (
+	"go/constant"
 	"fmt"
 	"go/ast"
 	"go/token"
@@ -260,42 +261,38 @@ func checkC18(c *Ctx, r *Report) {
 
 	// ---- exit codes and streams
 	r.rule("exit-codes", 4, "main: usage error -> die(2), help -> usage on stdout and exit 0, run error -> die(1); die prints the error to standard error and exits with its argument")
-	dieArgs := map[string]int64{}
-	helpExit := int64(-1)
-	ast.Inspect(mainFn.Body, func(n ast.Node) bool {
-		ifs, ok := n.(*ast.IfStmt)
-		if !ok {
-			return true
+	{
+		paOK := Value{K: vTuple, Tup: []Value{tagV("pa", nil), tagV("nil", nil)}}
+		paErr := Value{K: vTuple, Tup: []Value{tagV("pa", nil), tagV("errv", "usage")}}
+		scen := func(calls map[string]Value, help Value) (string, []argOutcome) {
+			outs, _ := c.cliInterp(mainFn, cliOpts{calls: calls, fields: map[string]Value{"help": help}})
+			var ds []string
+			for _, o := range outs {
+				ds = append(ds, o.Result+" "+strings.Join(o.Events, ","))
+			}
+			return strings.Join(ds, " | "), outs
 		}
-		for _, s := range ifs.Body.List {
-			es, ok := s.(*ast.ExprStmt)
-			if !ok {
-				continue
-			}
-			call, ok := es.X.(*ast.CallExpr)
-			if !ok {
-				continue
-			}
-			switch c.calleeName(call) {
-			case "cmd.die":
-				k, _ := c.intConst(call.Args[0])
-				// which error: the one from parseArgs or from run
-				which := "?"
-				if id, ok := call.Args[1].(*ast.Ident); ok {
-					def := c.lastAssignBefore(mainFn, id, ifs.Pos())
-					which = def
+		has := func(o argOutcome, prefix string) bool {
+			for _, e := range o.Events {
+				if strings.HasPrefix(e, prefix) {
+					return true
 				}
-				dieArgs[which] = k
-			case "os.Exit":
-				k, _ := c.intConst(call.Args[0])
-				helpExit = k
 			}
+			return false
 		}
-		return true
-	})
-	r.check(dieArgs[funcNameOfDecl(c, pa)] == spec.ExitUsage, "exit-codes", "usage", "die(2, err) after parseArgs", fmt.Sprintf("a usage error exits with %d, documented %d", dieArgs[funcNameOfDecl(c, pa)], spec.ExitUsage), c.pos(mainFn.Pos()))
-	r.check(dieArgs[funcNameOfDecl(c, run)] == spec.ExitRun, "exit-codes", "run", "die(1, err) after run", fmt.Sprintf("a run error exits with %d, documented %d", dieArgs[funcNameOfDecl(c, run)], spec.ExitRun), c.pos(mainFn.Pos()))
-	r.check(helpExit == spec.ExitHelp, "exit-codes", "help", "os.Exit(0) after help", fmt.Sprintf("help exits with %d, documented %d", helpExit, spec.ExitHelp), c.pos(mainFn.Pos()))
+		// usage error: the error on standard error, exit 2, run not called
+		d1, o1 := scen(map[string]Value{funcNameOfDeclQ(c, pa): paErr, funcNameOfDeclQ(c, run): tagV("nil", nil)}, tagV("nil", nil))
+		ok1 := len(o1) == 1 && o1[0].Result == fmt.Sprintf("exit(%d)", spec.ExitUsage) && has(o1[0], "print:Stderr errv(usage)") && !has(o1[0], "call:"+funcNameOfDeclQ(c, run))
+		r.check(ok1, "exit-codes", "usage", "the usage error on standard error, exit 2", fmt.Sprintf("when parseArgs fails main does [%s]; documented: the error on standard error and exit status %d", d1, spec.ExitUsage), c.pos(mainFn.Pos()))
+		// run error
+		d2, o2 := scen(map[string]Value{funcNameOfDeclQ(c, pa): paOK, funcNameOfDeclQ(c, run): tagV("errv", "run")}, tagV("nil", nil))
+		ok2 := len(o2) == 1 && o2[0].Result == fmt.Sprintf("exit(%d)", spec.ExitRun) && has(o2[0], "print:Stderr errv(run)")
+		r.check(ok2, "exit-codes", "run", "the run error on standard error, exit 1", fmt.Sprintf("when run fails main does [%s]; documented: the error on standard error and exit status %d", d2, spec.ExitRun), c.pos(mainFn.Pos()))
+		// help
+		d3, o3 := scen(map[string]Value{funcNameOfDeclQ(c, pa): paOK, funcNameOfDeclQ(c, run): tagV("nil", nil)}, tagV("helpfn", nil))
+		ok3 := len(o3) == 1 && o3[0].Result == fmt.Sprintf("exit(%d)", spec.ExitHelp) && has(o3[0], "call:field:help") && !has(o3[0], "call:"+funcNameOfDeclQ(c, run)) && !has(o3[0], "print:Stderr")
+		r.check(ok3, "exit-codes", "help", "help printed, exit 0, nothing run", fmt.Sprintf("with -h main does [%s]; documented: the help function called, exit status %d, the program not run", d3, spec.ExitHelp), c.pos(mainFn.Pos()))
+	}
 	okDie := len(die.Body.List) == 2
 	if okDie {
 		c1, ok1 := die.Body.List[0].(*ast.ExprStmt)
@@ -346,55 +343,43 @@ func checkC18(c *Ctx, r *Report) {
 		}
 		r.check(got["output"] == "os.Stdout" && got["logw"] == "os.Stderr", "streams", "library-defaults", "output: os.Stdout, logw: os.Stderr", fmt.Sprintf("makeConfig defaults are %v; must be output: os.Stdout, logw: os.Stderr", got), c.pos(mk.Pos()))
 	}
-	// stdin
-	okStdin := false
-	ast.Inspect(open.Body, func(n ast.Node) bool {
-		ifs, ok := n.(*ast.IfStmt)
-		if !ok {
-			return true
+	// stdin: with no file word and no flags parseArgs leaves file = "-"; open("-") gives os.Stdin without opening anything
+	okStdin, okDash := false, false
+	dashDesc, stdinDesc := "", ""
+	{
+		for _, flags := range []map[string]Value{nil, {"bload": constV(constant.MakeBool(true))}, {"disasm": constV(constant.MakeBool(true)), "stats": constV(constant.MakeBool(true))}} {
+			outs, _ := c.argsTail(pa, nil, flags)
+			good := len(outs) > 0
+			for _, o := range outs {
+				v, has := o.Vals["file"]
+				if o.Result != "ok" || !has || v.K != vConst || v.C.ExactString() != `"-"` {
+					good = false
+				}
+				dashDesc += fmt.Sprintf("[%s file=%v] ", o.Result, o.Vals["file"])
+			}
+			okDash = good
+			if !good {
+				break
+			}
 		}
-		if be, ok := stripParens(ifs.Cond).(*ast.BinaryExpr); ok && be.Op == token.EQL {
-			if s, isS := c.strConst(be.Y); isS && s == "-" {
-				for _, st := range ifs.Body.List {
-					if rs, ok := st.(*ast.ReturnStmt); ok && len(rs.Results) == 2 && qname(c.objOf(rs.Results[0])) == "os.Stdin" {
-						okStdin = true
-					}
+		// the function that opens the input: given "-"
+		outs, _ := c.cliInterp(open, cliOpts{args: []Value{constV(constant.MakeString("-"))}, fields: map[string]Value{"file": constV(constant.MakeString("-"))}, zero: true})
+		okStdin = len(outs) > 0
+		for _, o := range outs {
+			isStdin := len(o.Ret) > 0 && o.Ret[0].K == vTag && o.Ret[0].Tag == "os" && o.Ret[0].Data.(string) == "Stdin"
+			opened := false
+			for _, e := range o.Events {
+				if strings.HasPrefix(e, "os.Open") {
+					opened = true
 				}
 			}
+			if !isStdin || opened {
+				okStdin = false
+			}
+			stdinDesc += fmt.Sprintf("[%v %v] ", o.Ret, o.Events)
 		}
-		return true
-	})
-	okDash := false
-	dashBodies := []ast.Node{pa.Body}
-	c.walkCallsDeep(c.Cmd, pa.Body, func(call *ast.CallExpr) {
-		if fn, ok := c.callee(call).(*types.Func); ok && fn.Pkg() == c.Cmd.Types {
-			if hd := c.funcDecls[fn]; hd != nil && hd.Body != nil {
-				dashBodies = append(dashBodies, hd.Body)
-			}
-		}
-	})
-	for _, body := range dashBodies {
-		ast.Inspect(body, func(n ast.Node) bool {
-			as, ok := n.(*ast.AssignStmt)
-			if !ok || len(as.Lhs) != 1 || len(as.Rhs) != 1 || !strings.HasSuffix(c.fieldPath(as.Lhs[0]), ".file") {
-				return true
-			}
-			if v, isV := c.strConst(as.Rhs[0]); !isV || v != "-" {
-				return true
-			}
-			// under the fact that no file was given: file == "" or no file words (len(rest) == 0)
-			for _, f := range splitFacts(c.factsAt(body, as)) {
-				a := condAtom{E: stripParens(f.Cond), Pos: f.Pos, Init: f.Init}
-				if x, isEmpty, ok := c.emptyStringCmp(a); ok && isEmpty {
-					if strings.HasSuffix(c.fieldPath(x), ".file") || isStringSlice(c.typeOf(x)) {
-						okDash = true
-					}
-				}
-			}
-			return true
-		})
 	}
-	r.check(okStdin && okDash, "streams", "stdin", "no file -> '-' -> os.Stdin", "without a file argument the command must read standard input ('' -> '-' in parseArgs, '-' -> os.Stdin in open)", c.pos(open.Pos()))
+	r.check(okStdin && okDash, "streams", "stdin", "no file -> '-' -> os.Stdin", "without a file argument the command must read standard input ('' -> '-' in parseArgs, '-' -> os.Stdin in open): parseArgs without file words gives "+dashDesc+"; open(\"-\") gives "+stdinDesc, c.pos(open.Pos()))
 	// ---- the .bcb file carries every part of the program that the output depends on
 	if fspec, err := loadFormatSpec(); err == nil {
 		ruleSectionAgreement(c, r, "bdump-bload-sections", fspec)
@@ -485,4 +470,14 @@ func isStringSlice(t types.Type) bool {
 	}
 	sl, ok := t.Underlying().(*types.Slice)
 	return ok && types.TypeString(sl.Elem(), nil) == "string"
+}
+
+
+// funcNameOfDeclQ: the qualified name ("cmd.run") under which a command function appears as a callee.
+func funcNameOfDeclQ(c *Ctx, fd *ast.FuncDecl) string {
+	n := funcNameOfDecl(c, fd)
+	if !strings.HasPrefix(n, "cmd.") {
+		n = "cmd." + n
+	}
+	return n
 }
